@@ -20,7 +20,7 @@ Theorem C17_order : forall proj pc loc d es nd,
   NoDup (map ename es) ->
   gpt proj pc loc (Dir d es) = RNode nd ->
   map n_name (n_subs nd)
-  = filter (yields_page proj pc loc es (n_copy nd)) (dedup (n_ordered nd ++ listing es)).
+  = filter (yields_page proj loc es (n_copy nd)) (dedup (n_ordered nd ++ listing es)).
 Proof. exact order_model. Qed.
 Print Assumptions C17_order.
 
@@ -33,43 +33,21 @@ Proof. exact order_documented. Qed.
 Print Assumptions C17_order_documented.
 
 (* ---- mirror ------------------------------------------------------------------------------ *)
-(* Full statement: for every page directory that get_page_tree accepts, the pages (source file,
-   output file), in navigation order, are those of the mirror function.  It is FALSE of the code
-   in two regions (below); outside them it holds for all trees, whatever reading [skip] of the
-   ambiguous copy_subdir case is chosen. *)
-Definition C17_mirror_statement : Prop := mirror_statement.
-
-Theorem C17_mirror_partial : forall skip proj es,
-  wf_tree (Dir [] es) = true -> regular proj None (Dir [] es) = true ->
-  plain_names (Dir [] es) = true -> page_tree proj es <> RErr ->
-  pages (page_tree proj es) = spec_pages skip proj [] (Dir [] es).
-Proof. exact mirror_partial. Qed.
-Print Assumptions C17_mirror_partial.
+(* For every page directory that get_page_tree accepts (no ordered_subpage entry naming nothing),
+   the pages (source file, output file), in navigation order, are those of the mirror function:
+   every titled Markdown file under index-bearing directories, at the same relative path with
+   ".html"; a directory named by copy_subdir of its own directory's index.md is only copied. *)
+Theorem C17_mirror : forall proj es,
+  wf_tree (Dir [] es) = true -> page_tree proj es <> RErr ->
+  pages (page_tree proj es) = spec_pages only_copied proj [] (Dir [] es).
+Proof. exact mirror_full. Qed.
+Print Assumptions C17_mirror.
 
 Theorem C17_pages_nodup : forall proj es,
-  wf_tree (Dir [] es) = true -> regular proj None (Dir [] es) = true ->
-  plain_names (Dir [] es) = true -> page_tree proj es <> RErr ->
+  wf_tree (Dir [] es) = true -> page_tree proj es <> RErr ->
   NoDup (map snd (pages (page_tree proj es))).
 Proof. exact pages_nodup. Qed.
 Print Assumptions C17_pages_nodup.
-
-(* region 1: a sub-directory with pages is skipped because the copy_subdir list one level further
-   up names it (pages/sub/images with pages/index.md saying copy_subdir: images) *)
-Theorem C17_mirror_refuted_copy_subdir :
-  exists es, wf_tree (Dir [] es) = true /\ gp_lost [] None (Dir [] es) = true /\
-             plain_names (Dir [] es) = true /\ page_tree [] es <> RErr /\
-             forall skip, pages (page_tree [] es) <> spec_pages skip [] [] (Dir [] es).
-Proof. exact mirror_refuted_copy_subdir. Qed.
-Print Assumptions C17_mirror_refuted_copy_subdir.
-
-(* region 2: "v1.2.md" is written to "v1.html" (on top of the page of "v1.md") *)
-Theorem C17_mirror_refuted_dotted :
-  exists es, wf_tree (Dir [] es) = true /\ regular [] None (Dir [] es) = true /\
-             plain_names (Dir [] es) = false /\ page_tree [] es <> RErr /\
-             (forall skip, pages (page_tree [] es) <> spec_pages skip [] [] (Dir [] es)) /\
-             ~ NoDup (map snd (pages (page_tree [] es))).
-Proof. exact mirror_refuted_dotted. Qed.
-Print Assumptions C17_mirror_refuted_dotted.
 
 (* ---- a page without a title --------------------------------------------------------------- *)
 (* in its own directory (any position pc/loc, any siblings and sub-trees): the node tree is that of
@@ -101,9 +79,8 @@ Print Assumptions C17_pages_written.
 (* every other file of a page directory (Spec: spec_copied) is a file of some node, and every file
    of a node ends up beside the node's page, as a copy of itself (or under a page of that name) *)
 Theorem C17_files_copied_beside : forall proj es p,
-  wf_tree (Dir [] es) = true -> regular proj None (Dir [] es) = true ->
-  page_tree proj es <> RErr ->
-  In p (spec_copied [] (Dir [] es)) ->
+  wf_tree (Dir [] es) = true -> page_tree proj es <> RErr ->
+  In p (spec_copied proj [] (Dir [] es)) ->
   exists o, file_at p (f_files (writeout es (page_tree proj es))) = Some o /\
             (o = Copy p \/ exists src, o = Page src).
 Proof. exact files_copied_beside_spec. Qed.
@@ -137,36 +114,21 @@ Print Assumptions C17_copy_subdir_every_page.
    every other page for directories without an index.md of their own; own metadata, else the
    project list) is below <output>/page at the end *)
 Theorem C17_copy_subdirs_spec : forall proj es p,
-  wf_tree (Dir [] es) = true -> regular proj None (Dir [] es) = true ->
-  page_tree proj es <> RErr ->
+  wf_tree (Dir [] es) = true -> page_tree proj es <> RErr ->
   In p (spec_copydirs proj [] (Dir [] es)) ->
   exists o, file_at p (f_files (writeout es (page_tree proj es))) = Some o /\
             (o = Copy p \/ exists src, o = Page src).
 Proof. exact files_copydirs_spec. Qed.
 Print Assumptions C17_copy_subdirs_spec.
 
-(* what the code does: the list consulted is the one of the parent *node* (pc) *)
-Theorem C17_copy_subdir_skip_as_coded : forall proj pc loc d es nd n des,
+(* which sub-directories become sub-trees: those that the index.md of their own directory does
+   not name in copy_subdir (own metadata, else the project list) and that have a usable index.md *)
+Theorem C17_copy_subdir_skip : forall proj pc loc d es nd n des,
   NoDup (map ename es) ->
   gpt proj pc loc (Dir d es) = RNode nd ->
   find_entry n es = Some (Dir n des) -> visible n = true -> n <> idx ->
   (In n (map n_name (n_subs nd)) <->
-   in_opt n pc = false /\
+   str_in n (n_copy nd) = false /\
    exists x, gpt proj (Some (n_copy nd)) (loc ++ [n]) (Dir n des) = RNode x).
-Proof. exact skip_as_coded. Qed.
-Print Assumptions C17_copy_subdir_skip_as_coded.
-
-(* what the user guide says: the list of the directory's own index.md decides.  FALSE of the
-   code; true where both lists agree on the directory. *)
-Definition C17_copy_subdir_statement : Prop := copy_subdir_statement.
-Theorem C17_copy_subdir_partial : forall proj pc loc d es nd n des,
-  NoDup (map ename es) ->
-  gpt proj pc loc (Dir d es) = RNode nd ->
-  find_entry n es = Some (Dir n des) -> visible n = true -> n <> idx ->
-  in_opt n pc = str_in n (n_copy nd) ->
-  skip_documented proj pc loc d es nd n des.
-Proof. exact copy_subdir_partial. Qed.
-Print Assumptions C17_copy_subdir_partial.
-Theorem C17_copy_subdir_refuted : ~ C17_copy_subdir_statement.
-Proof. exact copy_subdir_refuted. Qed.
-Print Assumptions C17_copy_subdir_refuted.
+Proof. exact copy_subdir_skip. Qed.
+Print Assumptions C17_copy_subdir_skip.
